@@ -18,8 +18,7 @@ vars == <<l, bad>>
 
 CovOK(e) ==
    LET c == e.ctx
-       kms == WindowKms(c.reads1 \o c.reads2, c.k, c.rc, 1)
-       ri == RunInfo(kms)
+       ri == RunInfoOfSet(WindowSet(c.reads1 \o c.reads2, c.k, c.rc))
        hist == HistOfRuns(ri.lens, 1000)
        want == Trunc(hist)
        n == Len(e.table)
